@@ -107,10 +107,11 @@ def run_r2(chk: Check, prog: Program) -> None:
             if k in seen:
                 continue
             seen.add(k)
-            chk.fail("C01.R2", f"C01.R2:{f.qualname}:{unparse(e)}", f"truthiness test of {unparse(e)} in {f.qualname}",
+            # a candidate, not a verdict: whether treating 0 as absent changes a value is decided by R1 (zero-valued
+            # payload paths are among its cases); a truthiness test whose two branches agree at 0 is harmless
+            chk.info("C01.R2", f"C01.R2:{f.qualname}:{unparse(e)}", f"truthiness test of {unparse(e)} in {f.qualname}",
                      f"{e.attr} is declared Optional[number] ({', '.join(attrs[e.attr])}) and None-tested elsewhere; "
-                     f"at value 0 the truthiness test treats a present exponent/coefficient as absent",
-                     witness={"value": 0, "example": "x^0 + x is offered for factoring and becomes (1 + 1) * x^0"},
+                     f"at value 0 the truthiness test treats a present exponent/coefficient as absent (judged through R1)",
                      where=f.where)
     # positive instances: None tests that are done right
     for f in prog.all_functions():
